@@ -6,6 +6,7 @@ import (
 	"errors"
 	"path"
 	"strings"
+	"sync"
 	"time"
 
 	"github.com/hack-pad/hackpadfs"
@@ -16,6 +17,27 @@ const chmodBits = hackpadfs.ModePerm | hackpadfs.ModeSetuid | hackpadfs.ModeSetg
 // FS wraps a Store as a file system.
 type FS struct {
 	store *transactionOnly
+
+	// unlinks counts, per path, how often the name was removed or replaced through this FS.
+	// An open file remembers the count of its name: once it differs, the name no longer refers to that file.
+	unlinksMu sync.Mutex
+	unlinks   map[string]uint64
+}
+
+func (fs *FS) unlinkCount(path string) uint64 {
+	fs.unlinksMu.Lock()
+	defer fs.unlinksMu.Unlock()
+	return fs.unlinks[path]
+}
+
+// noteUnlink records that the file 'path' referred to is gone from that name (removed, renamed away or replaced)
+func (fs *FS) noteUnlink(path string) {
+	fs.unlinksMu.Lock()
+	defer fs.unlinksMu.Unlock()
+	if fs.unlinks == nil {
+		fs.unlinks = make(map[string]uint64)
+	}
+	fs.unlinks[path]++
 }
 
 // NewFS returns a new FS wrapping the given 'store'.
@@ -114,6 +136,10 @@ func (fs *FS) getFiles(paths ...string) ([]*file, []error) {
 		}
 	}
 
+	unlinks := make([]uint64, len(paths))
+	for i := range paths {
+		unlinks[i] = fs.unlinkCount(paths[i])
+	}
 	results, err := getFileRecords(fs.store, paths)
 	if err != nil {
 		errs[0] = err
@@ -126,6 +152,7 @@ func (fs *FS) getFiles(paths ...string) ([]*file, []error) {
 				runOnceFileRecord: runOnceFileRecord{record: result},
 				path:              paths[i],
 				fs:                fs,
+				unlinks:           unlinks[i],
 			},
 		}, fs.refineNotExist(paths[i], err)
 	}
@@ -344,6 +371,10 @@ func (fs *FS) rename(oldFile *file, oldname, newname string) error {
 			_ = txn.Abort()
 		} else {
 			err = commitTxn(txn)
+		}
+		if err == nil {
+			fs.noteUnlink(oldname)
+			fs.noteUnlink(newname) // a file that was at the new name has been replaced
 		}
 		return err
 	}
